@@ -370,6 +370,10 @@ func (tbls *TBLS) commitPhase(ctx context.Context, pk []byte) error {
 }
 
 func (tbls *TBLS) combineShares() []byte {
+	// Shares and public keys are written by OnMsg concurrently
+	tbls.lock.Lock()
+	defer tbls.lock.Unlock()
+
 	for _, party := range tbls.parties {
 		if party == tbls.Party {
 			continue
